@@ -81,6 +81,10 @@ def snapshot (h : List Entry) (cfg : Cfg) (tCheck tEntry tRetain : Nat) (t : Tot
 def autoSnapshotRuns (exitCode : Int) (enabled filesGiven diffGiven staged : Bool) : Bool :=
   exitCode = Generated.exitSuccess && enabled && !(filesGiven || diffGiven || staged)
 
+/-- … and, since 412b4a1, only when fail-fast left no file unprocessed (`files_skipped`) -/
+def autoSnapshotRuns' (exitCode : Int) (enabled filesGiven diffGiven staged filesSkipped : Bool) : Bool :=
+  autoSnapshotRuns exitCode enabled filesGiven diffGiven staged && !filesSkipped
+
 /-- `find_entry_at_or_before`: search backwards -/
 def findAtOrBefore (h : List Entry) (t : Nat) : Option Entry := h.reverse.find? (fun e => e.ts ≤ t)
 
